@@ -3,6 +3,9 @@
 package main
 
 import (
+	"bytes"
+
+	"github.com/hashicorp/go-msgpack/v2/codec"
 	"sort"
 	"strings"
 	"sync/atomic"
@@ -212,6 +215,32 @@ func (r *c24run) step(st h.Step) map[string]interface{} {
 		_ = r.c.send(validBody(st.Str("cmd"), st.Int("v"), lastSeq(r)))
 	case "junk":
 		_ = r.c.send(7)
+	case "batch":
+		// PIPELINING: all objects are encoded first and handed to the connection with ONE write, before anything
+		// is read: the server's bufio.Reader takes the whole batch in with the read that gets the first header
+		var buf bytes.Buffer
+		enc := codec.NewEncoder(&buf, msgpackHandle())
+		for _, x := range st.List("objs") {
+			o := h.Step(x.(map[string]interface{}))
+			var err error
+			switch o.A() {
+			case "hdr":
+				err = enc.Encode(map[string]interface{}{"Command": wireCmd(o.Str("cmd")), "Seq": uint64(o.Int("seq"))})
+			case "body":
+				err = enc.Encode(validBody(o.Str("cmd"), o.Int("v"), lastSeq(r)))
+			case "junk":
+				err = enc.Encode(7)
+			default:
+				h.Die("c24: unknown object %q in a batch", o.A())
+			}
+			if err != nil {
+				h.Die("c24: encode: %v", err)
+			}
+		}
+		if buf.Len() > 3500 {
+			h.Die("c24: batch of %d bytes does not fit the server's read buffer", buf.Len())
+		}
+		_ = r.c.writeRaw(buf.Bytes())
 	case "close":
 		r.c.close()
 		// positive barrier: the server side of the connection is gone, nothing more can happen for it
